@@ -17,7 +17,7 @@ MUTANTS = [
      "        magnitude = left.magnitude * right.magnitude\n        baseunits = left.baseunits + right.baseunits",
      "        magnitude = left.magnitude * right.magnitude\n        baseunits = left.baseunits - right.baseunits"),
     ("C06", "sum_in_right_operands_unit", U + "unit_types.py",
-     "        return unit1.magnitude + unit2.to(unit1.baseunits).magnitude\n\n    def sub",
+     "        return unit1.magnitude + unit2._convert(unit2.magnitude, unit2.baseunits, unit1.baseunits)\n\n    def sub",
      "        return unit1.to(unit2.baseunits).magnitude + unit2.magnitude\n\n    def sub"),
     ("C06", "cancelled_factor_not_folded", U + "quantity.py",
      "                    self.magnitude *= base.magnitude",
@@ -31,6 +31,9 @@ MUTANTS = [
     ("C06", "dimension_check_dropped_for_inverse", U + "unit_types.py",
      "        if self.baseunits1.dimensions!=self.baseunits2.dimensions:\n            raise Exception('Only units with the same dimension can added together', unit1, unit2)\n        return unit1.magnitude + ",
      "        return unit1.magnitude + "),
+    ("C06", "float_branch_exact_type_only", U + "fraction.py",      # seed C06-3 rebased onto 4f06f50
+     "            return Fraction(self.num*other[0], self.den*other[1])\n        elif isinstance(other, (float, np.floating)) and not float(other).is_integer():",
+     "            return Fraction(self.num*other[0], self.den*other[1])\n        elif type(other) is float and not float(other).is_integer():"),
     # ---- C07
     ("C07", "mul_shares_left_exponent_dict", U + "base_units.py",
      "    def __add__(self, other):\n        baseunits = dict(self.baseunits)",
